@@ -68,17 +68,10 @@ def check(assertions, timeout_s=60, cross=False, logic=None, tactic=None):
     for a in assertions:
         s.add(a)
     t0 = time.time()
-    # the sequence solver does not always honour the timeout parameter: a watchdog interrupts the context
-    import threading
-    wd = threading.Timer(timeout_s + 2, lambda: s.ctx.interrupt())
-    wd.daemon = True
-    wd.start()
     try:
         r = s.check()
     except z3.Z3Exception:
         r = z3.unknown
-    finally:
-        wd.cancel()
     dt = time.time() - t0
     status = "sat" if r == z3.sat else "unsat" if r == z3.unsat else "unknown"
     res = Result(status, seconds=dt)
